@@ -1,6 +1,6 @@
 #include <xtl/xcompare.hpp>
 #include <cstdio>
-int main() { unsigned long t = (unsigned long)(18446744073709551488ulLL); signed char u = (signed char)(-128ULL); __int128 a = t, b = u; int bad = 0;
+int main() { unsigned long t = (unsigned long)(18446744073709551488ULL); signed char u = (signed char)(-128LL); __int128 a = t, b = u; int bad = 0;
 #define CK(f, op) { bool r = xtl::f(t, u); bool e = (a op b); if (r != e) { std::printf(#f "(%lld, %llu as given types) = %d, mathematical comparison gives %d\n", (long long)t, (unsigned long long)u, (int)r, (int)e); bad = 1; } }
  CK(cmp_equal, ==) CK(cmp_not_equal, !=) CK(cmp_less, <) CK(cmp_greater, >) CK(cmp_less_equal, <=) CK(cmp_greater_equal, >=)
  return bad; }
